@@ -40,6 +40,26 @@ Theorem C09_los_laws : forall (gev_ppf : R -> R -> R) other m sg xi kl rg cu,
 Proof. intros. split; [apply los_gaussian | split; [apply los_gev | apply los_none_is_zero]]. Qed.
 Print Assumptions C09_los_laws.
 
+(* which law an object is bound to: its own population of the list (index 0 included), else its individual law, else none *)
+Theorem C09_los_constructor : forall (gev_ppf : R -> R -> R) (d0 d1 d2 : string) xi m sg (ld ki : val) rg cu,
+  yields Gc9 60 (CClass "LOSDistribution" src_LOSDistribution_init) None [] [("global_los_distribution", VInt 1); ("los_distributions", VList [VStr d0; VStr d1; VStr d2])] rg cu
+    (VObj "LOSDistribution" [("_global_los_distribution", VInt 1); ("_draw_kappa_global", VBool true); ("_los_distribution", VStr d1); ("_draw_kappa_individual", VBool false)]) cu []
+  /\ yields Gc9 60 (CClass "LOSDistribution" src_LOSDistribution_init) None [] [("global_los_distribution", VInt 0); ("los_distributions", VList [VStr d0; VStr d1; VStr d2])] rg cu
+    (VObj "LOSDistribution" [("_global_los_distribution", VInt 0); ("_draw_kappa_global", VBool true); ("_los_distribution", VStr d0); ("_draw_kappa_individual", VBool false)]) cu []
+  /\ yields Gc9 60 (CClass "LOSDistribution" src_LOSDistribution_init) None []
+    [("global_los_distribution", VBool false); ("los_distributions", ld); ("individual_distribution", VStr "GEV");
+     ("kwargs_individual", dict [("xi", num xi); ("mean", num m); ("sigma", num sg)])] rg cu
+    (VObj "LOSDistribution" [("_global_los_distribution", VBool false); ("_draw_kappa_global", VBool false);
+                             ("_kappa_dist", VObj "GEV" [("_xi", num xi); ("_mean", num m); ("_sigma", num sg)]); ("_draw_kappa_individual", VBool true)]) cu []
+  /\ yields Gc9 60 (CClass "LOSDistribution" src_LOSDistribution_init) None []
+    [("global_los_distribution", VInt 0); ("los_distributions", VList [VStr "GAUSSIAN"]); ("individual_distribution", VStr "GEV"); ("kwargs_individual", ki)] rg cu
+    (VObj "LOSDistribution" [("_global_los_distribution", VInt 0); ("_draw_kappa_global", VBool true); ("_los_distribution", VStr "GAUSSIAN"); ("_draw_kappa_individual", VBool false)]) cu []
+  /\ yields Gc9 60 (CClass "LOSDistribution" src_LOSDistribution_init) None [] [("global_los_distribution", VBool false); ("los_distributions", ld)] rg cu
+    (VObj "LOSDistribution" [("_global_los_distribution", VBool false); ("_draw_kappa_global", VBool false); ("_draw_kappa_individual", VBool false)]) cu [].
+Proof. intros. pose proof (los_ctor_global_population d0 d1 d2 rg cu) as [A B]. pose proof (los_ctor_global_wins_and_none ld ki rg cu) as [C D].
+  repeat split; [exact A | exact B | apply los_ctor_individual_gev | exact C | exact D]. Qed.
+Print Assumptions C09_los_constructor.
+
 (* 'is this a distribution': False exactly when the draw is degenerate *)
 Theorem C09_draw_bool : forall (gev_ppf : R -> R -> R) glob kl m sg rg cu,
   yields (Gl gev_ppf) 50 (CFun src_LOSDistribution_draw_bool) (Some (los_obj true glob)) [kl] [] rg cu (VBool true) cu []
